@@ -296,6 +296,13 @@ def entries(seed, premade=None):
     reg('get_wmwf_vector[ref 1]', lambda args: bf.get_wmwf_vector(args[0], args[1], reference_channel=1), Pxx, Pnn)
     reg('get_wmwf_vector[ref 2, mu 0.5]', lambda args: bf.get_wmwf_vector(args[0], args[1], reference_channel=2,
                                                                             distortion_weight=0.5), Pxx, Pnn)
+    Pxx_dead = Pxx.copy()
+    Pxx_dead[1, 0, :] = 0
+    Pxx_dead[1, :, 0] = 0                                         # first microphone silent in bin 1
+    reg('get_wmwf_vector[frequency_dependent, silent first channel in one bin]',
+        lambda args: bf.get_wmwf_vector(args[0], args[1], distortion_weight='frequency_dependent'), Pxx_dead, Pnn)
+    reg('get_wmwf_vector[frequency_dependent]',
+        lambda args: bf.get_wmwf_vector(args[0], args[1], distortion_weight='frequency_dependent'), Pxx, Pnn)
     reg('get_mvdr_vector_souden[ref 1]', lambda args: bf.get_mvdr_vector_souden(args[0], args[1], ref_channel=1), Pxx, Pnn)
     reg('get_pca_vector[eigenvalue]', lambda args: bf.get_pca_vector(args[0], scaling='eigenvalue'), Pxx)
     # real-dtype (symmetric, not bit-exactly so) noise PSDs and stacks of 64 bins with noise-free bins
